@@ -34,12 +34,14 @@ CONSTANTS Shapes,       \* subset of {"m", "d", "md", "md2"}: media / data chann
           PeerGoes,     \* subset of BOOLEAN: may the remote side go away?
           Deviations,   \* subset of AllDeviations: defects re-enabled in every configuration
           DevSel,       \* subset of AllDeviations \cup {"none"}: one extra deviation chosen per configuration
+          AppChans,     \* subset of {0, 1}: data channels the application may create at ANY time before close()
           Levels,       \* subset of Nat: earliest level of the first close() (simulation only; {0} otherwise)
           Users         \* subset of {"u1","u2"}: user close() calls available
 
 Configs ==
   {[nt |-> IF x = "md2" THEN 2 ELSE 1, media |-> x \in {"m", "md", "md2"}, dc |-> x \in {"d", "md", "md2"},
-    role |-> r, pg |-> g, dev |-> d, lvl |-> v] : x \in Shapes, r \in Roles, g \in PeerGoes, d \in DevSel, v \in Levels}
+    role |-> r, pg |-> g, dev |-> d, lvl |-> v, app |-> a] :
+     x \in Shapes, r \in Roles, g \in PeerGoes, d \in DevSel, v \in Levels, a \in AppChans}
 
 AllDeviations == {"ConsentAfterClose",  \* ice.start() ignores that stop() overtook aioice connect()
                   "SigAfterClose",      \* setRemoteDescription never looks at the closed latch
@@ -48,9 +50,11 @@ AllDeviations == {"ConsentAfterClose",  \* ice.start() ignores that stop() overt
                   "NoRtcpWait",         \* receiver.stop() cancels without waiting for rtcp_started
                   "SkipSctpStop",       \* close() skips sctp.stop()
                   "NotIdempotent",      \* second close() signals again
-                  "DecoderNotJoined"}   \* receiver.stop() leaves the decoder thread
+                  "DecoderNotJoined",   \* receiver.stop() leaves the decoder thread
+                  "SctpStopGuard",      \* sctp.stop() returns at once when the association already died by itself
+                  "ChanOnClosed"}       \* createDataChannel works on a closed connection (no closed latch check)
 
-ASSUME Deviations \subseteq AllDeviations /\ DevSel \subseteq AllDeviations \cup {"none"} /\ Levels \subseteq Nat
+ASSUME Deviations \subseteq AllDeviations /\ DevSel \subseteq AllDeviations \cup {"none"} /\ Levels \subseteq Nat /\ AppChans \subseteq {0, 1}
 ASSUME Users \subseteq {"u1", "u2"}
 ASSUME Shapes \subseteq {"m", "d", "md", "md2"} /\ Roles \subseteq {"offerer", "answerer"} /\ PeerGoes \subseteq BOOLEAN
 
@@ -103,8 +107,9 @@ Init ==
                                   consent |-> "none", check |-> "none", local |-> FALSE]],
            mon  |-> [t \in T |-> "none"],
            dtls |-> [t \in T |-> [st |-> "new", pump |-> "none"]],
-           sctp |-> [started |-> FALSE, assoc |-> "closed", reg |-> FALSE],
+           sctp |-> [started |-> FALSE, assoc |-> "closed", reg |-> FALSE, dead |-> FALSE],
            chan |-> IF cfg.dc THEN "connecting" ELSE "none",
+           chan2 |-> "none",        \* a channel the application creates later (createDataChannel never looks at SCTP)
            snd  |-> [started |-> FALSE, rtp |-> "none", rtcp |-> "none"],
            rcv  |-> [started |-> FALSE, rtcp |-> "none", dec |-> "none"],
            trk  |-> [st |-> "none", q |-> FALSE, ended |-> FALSE],
@@ -134,7 +139,7 @@ ThreadNames(s) == IF s.rcv.dec = "run" THEN {"decoder"} ELSE {}
 
 Obs(s) ==
   [sig |-> s.sig, ice |-> s.pcIce, conn |-> s.pcConn,
-   channels |-> IF s.chan = "none" THEN <<>> ELSE <<s.chan>>,
+   channels |-> (IF s.chan = "none" THEN <<>> ELSE <<s.chan>>) \o (IF s.chan2 = "none" THEN <<>> ELSE <<s.chan2>>),
    tracks |-> IF s.trk.st = "live" THEN <<IF s.trk.ended THEN "ended" ELSE "live">> ELSE <<>>,
    tasks |-> IF TaskNames(s) = {} THEN <<>> ELSE <<"some">>,
    threads |-> IF ThreadNames(s) = {} THEN <<>> ELSE <<"decoder">>]
@@ -181,6 +186,13 @@ SetChan(s, new) ==
   IF s.chan \in {"none", new} \/ (new = "open" /\ s.chan # "connecting") THEN s     \* a closed channel never reopens
   ELSE Emit([s EXCEPT !.chan = new], IF new = "open" THEN "channel:open" ELSE "channel:close")
 
+SetChan2(s, new) ==
+  IF s.chan2 \in {"none", new} \/ (new = "open" /\ s.chan2 # "connecting") THEN s
+  ELSE Emit([s EXCEPT !.chan2 = new], IF new = "open" THEN "channel:open" ELSE "channel:close")
+
+\* RTCSctpTransport._set_state(CLOSED): public state "closed", every channel known NOW is closed
+SctpClosed(s) == SetChan2(SetChan([s EXCEPT !.sctp.assoc = "closed", !.sctp.dead = TRUE], "closed"), "closed")
+
 \* RTCRtpReceiver.__stop_decoder: the thread ends, puts None into the track queue, is joined
 StopDecoder(s) ==
   IF s.rcv.dec = "run"
@@ -212,7 +224,7 @@ CoAfterDtls(s, c, k) ==
                    IN IF a.rcv.started THEN a
                       ELSE [a EXCEPT !.rcv = [started |-> TRUE, rtcp |-> "ready", dec |-> "run"]]
             ELSE IF up /\ sec.kind = "sctp" /\ ~s.sctp.started
-              THEN [s EXCEPT !.sctp = [started |-> TRUE, assoc |-> "wait", reg |-> TRUE]]
+              THEN [s EXCEPT !.sctp.started = TRUE, !.sctp.assoc = "wait", !.sctp.reg = TRUE]
             ELSE s
   IN CoFrom(s1, c, k + 1)
 
@@ -387,8 +399,23 @@ SctpUp ==
 SctpPeerAbort ==
   /\ st.sctp.reg /\ st.sctp.assoc # "closed" /\ st.peer = "gone"
   /\ st.dtls[SctpT(st)].pump = "run"
-  /\ st' = SetChan([st EXCEPT !.sctp.assoc = "closed"], "closed")
+  /\ st' = SctpClosed(st)
   /\ act' = [op |-> "sctp_peer_abort"]
+
+\* the application creates a data channel - at any time before close(), also after the
+\* association has died; it is only queued (createDataChannel never looks at the SCTP state)
+AppChan ==
+  /\ st.cfg.app > 0 /\ st.chan2 = "none"
+  /\ st.fut = "none" \/ Dev(st, "ChanOnClosed")      \* InvalidStateError once close() (also the automatic one) has begun
+  /\ st' = [st EXCEPT !.chan2 = "connecting"]
+  /\ act' = [op |-> "app_chan"]
+
+\* DCEP OPEN / ACK for the late channel on an established association
+Chan2Up ==
+  /\ st.chan2 = "connecting" /\ st.sctp.reg /\ st.sctp.assoc = "est" /\ st.peer = "alive"
+  /\ st.dtls[SctpT(st)].st = "connected" /\ st.dtls[SctpT(st)].pump = "run"
+  /\ st' = SetChan2(st, "open")
+  /\ act' = [op |-> "chan2_up"]
 
 \* the application's consumer of the received track sees the end marker
 Consume ==
@@ -491,8 +518,9 @@ ClTransport(s, k, j) ==
                  ELSE ClConnClose2(s2, k, j)
 
 ClSctp(s, k) ==
-  LET s1 == IF s.cfg.dc /\ ~Dev(s, "SkipSctpStop")
-              THEN SetChan([s EXCEPT !.sctp.assoc = "closed", !.sctp.reg = FALSE], "closed")
+  LET s1 == IF (s.cfg.dc \/ s.chan2 # "none") /\ ~Dev(s, "SkipSctpStop")
+                 /\ ~(Dev(s, "SctpStopGuard") /\ s.sctp.dead)
+              THEN SctpClosed([s EXCEPT !.sctp.reg = FALSE])
               ELSE s
   IN ClTransport(s1, k, 1)
 
@@ -592,7 +620,7 @@ ClMon(k) ==
 \* steps the application / the remote side may or may not take
 Optional ==
   \/ \E k \in {"u1", "u2"} : CloseCall(k)
-  \/ SLCall \/ SRCall \/ PeerLeaves
+  \/ SLCall \/ SRCall \/ PeerLeaves \/ AppChan
 
 \* steps that happen by themselves (weak fairness)
 Internal ==
@@ -601,7 +629,7 @@ Internal ==
                   \/ CheckCancelled(t) \/ MonWake(t) \/ ConsentCancelled(t) \/ ConsentExpire(t)
                   \/ PumpStart(t) \/ PumpCancelled(t) \/ PumpError(t)
   \/ \E f \in {"rtp", "rtcp", "rrtcp"} : RtpTaskStart(f) \/ RtpTaskCancelled(f)
-  \/ RtpDies \/ SctpUp \/ SctpPeerAbort \/ Consume
+  \/ RtpDies \/ SctpUp \/ SctpPeerAbort \/ Chan2Up \/ Consume
   \/ SLGathered \/ SRDone
   \/ AutoRun
   \/ \E k \in K : ClWaitFut(k) \/ ClRcvStarted(k) \/ ClRcvExited(k) \/ ClSndStarted(k) \/ ClSndExited(k)
@@ -628,7 +656,7 @@ SettledOK ==
      /\ AnyRet(st) => FinalClause(Obs(st)) = "ok"
 
 \* a close() after the first one has completed changes nothing observable
-ObsCore(s) == <<s.sig, s.pcIce, s.pcConn, s.chan, s.trk, s.late, s.fut>>
+ObsCore(s) == <<s.sig, s.pcIce, s.pcConn, s.chan, s.chan2, s.trk, s.late, s.fut>>
 SecondCloseNoop ==
   [][(st.fut = "done" /\ st'.called # st.called) => ObsCore(st') = ObsCore(st)]_vars
 
@@ -647,6 +675,7 @@ WitSecondAfter    == ~(st.ret["u1"] /\ st.ret["u2"] /\ st.cl["auto"].lbl = "idle
 WitPeerGoneFirst  == ~(st.peer = "gone" /\ Closing(st) /\ st.snd.started)
 WitRcvStartedWait == ~(\E k \in K : st.cl[k].lbl = "rcvstarted")
 WitIceFix         == ~(\E c \in C : st.co[c].lbl = "icefix")
+WitLateChannel    == ~(st.chan2 = "connecting" /\ st.sctp.dead /\ st.fut = "none")   \* created after the association died
 \* Sensitivity: with DevSel = a set of deviations (and none of the invariants above in the
 \* configuration) every chosen deviation must break one of them somewhere.
 ASSUME \A i \in 20..30 : TLCSet(i, {})
@@ -657,7 +686,7 @@ DevProbe == DevBroken("PostStates", PostStates) /\ DevBroken("NoLateEvent", NoLa
 
 \* Reports the witnesses seen inside an exhaustive run of the other invariants: prints
 \* <<"WITNESS", name>> the first time a worker reaches a state violating the witness.
-ASSUME \A i \in 1..10 : TLCSet(i, 0)
+ASSUME \A i \in 1..11 : TLCSet(i, 0)
 Probe(i, name, violated) == (violated /\ TLCGet(i) = 0) => (TLCSet(i, 1) /\ PrintT(<<"WITNESS", name>>))
 WitnessProbe ==
   /\ Probe(1, "WitCloseAtIceConn", ~WitCloseAtIceConn)
@@ -670,4 +699,5 @@ WitnessProbe ==
   /\ Probe(8, "WitPeerGoneFirst", ~WitPeerGoneFirst)
   /\ Probe(9, "WitRcvStartedWait", ~WitRcvStartedWait)
   /\ Probe(10, "WitIceFix", ~WitIceFix)
+  /\ Probe(11, "WitLateChannel", ~WitLateChannel)
 =============================================================================
